@@ -412,6 +412,18 @@ func runCase(c Case) *ev.Failure {
 			cleanup()
 			return ev.Failf("local-close-blocked", "Close() did not return within %v (a Write of another goroutine is stuck in the transport: %v)", promptly, c.StuckWrite)
 		}
+	case "burst-with-eof", "burst-then-eof":
+		// several more messages arrive in one piece with the peer's EOF right behind them (a peer
+		// that pipelines and leaves): all of them were received before the connection ended
+		var burst []byte
+		for k := 0; k < 3; k++ {
+			burst = append(burst, appMessage(sent, false)...)
+			sent++
+		}
+		if c.Term == "burst-with-eof" {
+			mc.ErrWithData = true
+		}
+		mc.FeedWithErr(io.EOF, burst)
 	case "last-with-eof", "last-with-error":
 		// one more valid message whose last bytes arrive together with the end of the stream
 		mc.ErrWithData = true
@@ -473,7 +485,7 @@ func runCase(c Case) *ev.Failure {
 }
 
 var terms = []string{"eof", "read-error", "garbage-small", "garbage-large", "local-close", "last-with-eof", "last-with-error", "handler-panic",
-	"eof-handler-waits", "read-error-handler-waits", "local-close-handler-waits"}
+	"eof-handler-waits", "read-error-handler-waits", "local-close-handler-waits", "burst-with-eof", "burst-then-eof"}
 
 func classify(c Case) (bool, []string) {
 	cl := []string{"mode:" + c.Mode, "term:" + c.Term}
@@ -558,7 +570,7 @@ func genCase(t *rapid.T) Case {
 
 var prop = ev.Register(&ev.Prop[Case]{
 	ID: "C14", Name: "closenotify",
-	Rule: "orders of events {deliver 1..4 valid messages in arbitrary fragments (optionally one handler requests CloseNotify), request CloseNotify from another goroutine while the reader is parked, request it at an arbitrary moment, a Write that fails with a temporary error on the live connection} followed by exactly one terminating event {peer EOF, transport read error, undecodable message with 200 B / 9 KB of trailing data, local Close, the last message together with EOF / error, handler panic; EOF / read error / local Close while a handler waits for a channel requested earlier} and 0..2 requests after termination; 1 in 4 with a Write of another goroutine stuck in the transport when the connection terminates; on a plain connection and through sm.Client with the watchdog enabled; every channel must be open before and closed within 3 s after termination, messages dispatched once each in order, and no goroutine with diam.(*conn).serve / closeNotify.func / sm.(*Client).watchdog on its stack may remain; non-trivial = at least one CloseNotify request and one delivered message; distinct by event order",
+	Rule: "orders of events {deliver 1..4 valid messages in arbitrary fragments (optionally one handler requests CloseNotify), request CloseNotify from another goroutine while the reader is parked, request it at an arbitrary moment, a Write that fails with a temporary error on the live connection} followed by exactly one terminating event {peer EOF, transport read error, undecodable message with 200 B / 9 KB of trailing data, local Close, the last message together with EOF / error, handler panic, three messages in one piece with EOF right behind them; EOF / read error / local Close while a handler waits for a channel requested earlier} and 0..2 requests after termination; 1 in 4 with a Write of another goroutine stuck in the transport when the connection terminates; on a plain connection and through sm.Client with the watchdog enabled; every channel must be open before and closed within 3 s after termination, messages dispatched once each in order, and no goroutine with diam.(*conn).serve / closeNotify.func / sm.(*Client).watchdog on its stack may remain; non-trivial = at least one CloseNotify request and one delivered message; distinct by event order",
 	Gen:  genCase, Run: runCase, Classify: classify, Attempts: 5,
 })
 
